@@ -257,6 +257,27 @@ def worker(c):
                 mut[o:o + 4] = np.frombuffer(np.int32(nv).tobytes(), dtype=np.uint8)
                 judge("int-array", k, mut, "%s[%d] %d->%d" % (k, i, v, nv))
     P.count("int_arrays_located", narr)
+    # ---- type-like arrays: every enumerator value, not only the extremes (a validator branch taken for ONE particular type may index
+    # other arrays through references that were validated for a different type)
+    TYPE_ARRAYS = {"sensor_type": 64, "sensor_objtype": 32, "sensor_reftype": 32, "jnt_type": 8, "geom_type": 12, "actuator_trntype": 10,
+                   "actuator_dyntype": 10, "actuator_gaintype": 10, "actuator_biastype": 10, "eq_type": 10, "eq_objtype": 32, "wrap_type": 8,
+                   "cam_targetbodyid": 0, "light_type": 6, "tex_type": 6, "sensor_datatype": 6, "sensor_needstage": 6}
+    for k, top in TYPE_ARRAYS.items():
+        if not top or k not in offs or k not in m.fields() or m.fields()[k][1] != "int":
+            continue
+        a = m[k]
+        if a.size == 0 or blob[offs[k]:offs[k] + a.nbytes] != a.tobytes():
+            continue
+        flat = a.ravel()
+        for i in sorted(set([0, a.size - 1, int(rng.integers(0, a.size))])):
+            for nv in range(top):
+                if nv == int(flat[i]):
+                    continue
+                mut = img.copy()
+                o = offs[k] + 4 * i
+                mut[o:o + 4] = np.frombuffer(np.int32(nv).tobytes(), dtype=np.uint8)
+                judge("int-array", k, mut, "%s[%d] %d->%d (type sweep)" % (k, i, int(flat[i]), nv))
+        P.count("type_arrays_swept")
     # ---- random multi-byte corruptions
     for j in range(c["nrandom"]):
         mut = img.copy()
